@@ -478,6 +478,14 @@ func runWorldMode(cfg *runCfg, name string, kf1 bool) error {
 			w = equivocationWorld(r, rep, cfg.seed*100000)
 			w.equivocationScript()
 			rep.count("world:directed-equivocation-script")
+		} else if !kf1 && i == 1 {
+			w = directedWorld(r, rep, cfg.seed*100000+1, 0)
+			w.splitProofScript()
+			rep.count("world:directed-split-proof-script")
+		} else if !kf1 && i == 2 {
+			w = directedWorld(r, rep, cfg.seed*100000+2)
+			w.earlyPrepareScript()
+			rep.count("world:directed-early-prepare-script")
 		} else {
 			w.run()
 		}
